@@ -209,7 +209,7 @@ class SplitFileMerger(RawIOBase):
 
     @_raise_if_file_closed_generic
     def read(self, n: int = -1) -> bytes:
-        if n == -1:
+        if n < 0:
             n = max(self._total_size - self._fake_seek, 0)
         elif self._fake_seek + n > self._total_size:
             n = max(self._total_size - self._fake_seek, 0)
